@@ -108,6 +108,50 @@ def abort_then_new_flow(ctx, rng, chunks):
         sc.close()
 
 
+def wire_level(ctx, rng, grant, nframes):
+    """The same guarantee one layer down: the real sender Mux writes its frames to the ssh pipe with short
+    writes, a PING from the peer is handled while a DATA frame is only partly written, and the real receiver Mux
+    decodes the byte stream.  What the receiver hands to channel 7 must be a prefix of the payload the sender
+    framed for channel 7, and the receiver must not die on the stream."""
+    from props import c07
+    ssnet, _client, _helpers = c07._mods()
+    r, w = c07.ScriptedR(), c07.ScriptedW()
+    a = ssnet.Mux(r, w)
+    b, br, _bw = c07.make_mux(ssnet)
+    payload = tg.payload(rng, 2048 * nframes - 5, 7)
+    for k in range(0, len(payload), 2048):
+        a.send(7, ssnet.CMD_TCP_DATA, payload[k:k + 2048])
+    w.grant = 15
+    a.flush()
+    w.grant = grant
+    a.flush()
+    r.next = ('d', c07.encode((0, ssnet.CMD_PING, b'rttest')))
+    a.handle()
+    guard = 0
+    while a.outbuf and guard < 5000:
+        guard += 1
+        w.grant = rng.choice([1, 7, 64, 2000, 1 << 20])
+        a.flush()
+    got, died = b'', None
+    try:
+        pos, wire = 0, w.written
+        while pos < len(wire):
+            k = rng.choice([1, 8, 9, 100, 4096, len(wire)])
+            br.next = ('d', wire[pos:pos + k])
+            b.handle()
+            pos += k
+    except Exception as e:  # noqa
+        died = repr(e)
+    got = b''.join(d for (c, m, d) in b.frames if c == 7 and m == ssnet.CMD_TCP_DATA)
+    if got != payload[:len(got)] or died or len(got) != len(payload):
+        ctx.violation('C01:wire:delivered-bytes-differ-from-sent-after-short-write',
+                      case=dict(kind='wire-level', grant=grant, nframes=nframes),
+                      expected='channel 7 receives exactly the %d bytes framed for it' % len(payload),
+                      observed='%d bytes, first difference at %s, receiver %s' % (
+                          len(got), next((i for i in range(min(len(got), len(payload))) if got[i] != payload[i]), None),
+                          died or 'alive'))
+
+
 def run(ctx):
     rng = ctx.rng
     all_in, all_out = [], []
@@ -118,6 +162,11 @@ def run(ctx):
         ctx.count()
         ctx.mark(('abort-new-flow', chunks), True)
         ctx.hist('directed:abort-then-new-flow')
+    for grant in (1, 8, 9, 700, 2055, 2056, 2057):
+        wire_level(ctx, rng, grant, rng.choice([1, 2, 3]))
+        ctx.count()
+        ctx.mark(('wire', grant), True)
+        ctx.hist('directed:wire-level-short-write')
     n = ctx.scale(60, 1500)
     for k in range(n):
         o = tg.Opts(nflows=rng.choice([1, 1, 2, 3, 4]), steps=rng.randrange(20, 90),
@@ -142,6 +191,10 @@ def run(ctx):
 
 
 def replay(ctx, rep):
+    if rep.get('case', {}).get('kind') == 'wire-level':
+        c2 = type(ctx)(ctx.prop_id, 'quick', 0)
+        wire_level(c2, c2.rng, rep['case']['grant'], rep['case']['nframes'])
+        return bool(c2.violations), (c2.violations[0]['observed'] if c2.violations else 'bytes arrive intact')
     s, wrote = tg.replay_script(rep['case']['script'])
     try:
         t = s.t
